@@ -180,14 +180,12 @@ class GlobalContext:
             path = self.rel_import_path
             if path.endswith("/__init__"):
                 path = os.path.dirname(path)
-            ctx_name = self.name
             for _ in range(import_level - 1):
                 path = os.path.dirname(path)
-                idx = ctx_name.rfind(".")
-                if path.find("/") < 0 or idx < 0:
+                if path.find("/") < 0:
                     raise ImportError("attempted relative import above parent package")
-                ctx_name = ctx_name[0:idx]
-            ctx_name += f".{module_name}"
+            # the package's context is named after its directory (self.name is that only for an __init__ file)
+            ctx_name = path.replace("/", ".") + f".{module_name}"
             module_info = [ctx_name, f"{path}/{module_path}.py", path]
             path += f"/{module_path}"
             file_paths.append([ctx_name, f"{path}/__init__.py", path])
